@@ -322,6 +322,11 @@ class Models(object):
 
                 conv = ConvolvedFluxes.read(filename)
 
+                # The file may list the models in another order than the
+                # cube (and than the files of the other filters)
+                if not np.array_equal(conv.model_names, np.char.strip(cube.names)):
+                    conv.sort_to_match(cube.names)
+
                 m.wavelengths[ifilt] = conv.central_wavelength
 
             elif 'wav' in filt:
